@@ -120,42 +120,42 @@ CHECKS = {
              'adiabatic_reaction with heat input) log material, temperature and Hnet before / after; TLC judges material, dH value, Hnet value, isothermal heat of reaction (where the definition applies), adiabatic balance and temperature.',
         note='Trusted: TLC; synthetic chemicals only (constant Cn, constant latent heats); ReactionSystem not driven; infeasible conversions out of contract (C05).'),
     'C03': dict(
-        engine='PhaseEq', category='model_checking',
+        engine='PhaseEq', category='exploration',
         technique='TLA+ contract spec of equilibrium calls as nondeterministic material-moving actions (PhaseEq.tla) model-checked by TLC; phase x chemical tables logged from real vle / lle / sle / vlle calls are validated step by step by TLC against the contract',
         text='The specification allows an equilibrium call any outcome that conserves every chemical over the phases, keeps all entries non-negative, touches only the phases (and for sle the solute) the calculation works on and places '
              'gas-only / condensed-only chemicals accordingly; TLC checks ledger, non-negativity and persistence of the locked placement over all call sequences on small tables. Histories of 8 calls on random real streams '
              '(7 chemicals incl. gas-, liquid- and solid-only ones, flows over six decades, every initial distribution over g/l/L/s, all supported specification pairs) are logged in quanta of 1e-8 and judged by TLC.',
         note='Trusted: TLC; the solvers are not modelled (contract only); calls that raise are not judged; H/S targets come from the library\'s own bounding flashes.'),
     'C15': dict(
-        engine='LiquidEq', category='model_checking',
+        engine='LiquidEq', category='exploration',
         technique='TLA+ spec of the LLE solver object\'s memory protocol (what is remembered, when it is reused) with the call contracts (LiquidEq.tla) model-checked by TLC; TLC witness schedules and random histories on real lle / sle calls validated by TLC',
         text='TLC explores all sequences of lle calls (temperatures x compositions x chemical sets x reuse allowed / forbidden) on the memory protocol: the split returned is always the equilibrium of the current call (Fresh); with the reuse test as '
              'originally written the invariant fails (vacuity guard) and that schedule is replayed. Every witness schedule runs on a reusing stream, a non-reusing twin and a scaled twin; TLC judges equality with the fresh solve, activities, proportionality, '
              'top-chemical labelling; sle histories: only the solute moves, never more dissolved than present / than the given solubility, pure solute by melting point.',
         note='Trusted: TLC; activities evaluated with the library\'s own Gamma object; solver numerics not modelled. Known finding: the default pseudo-equilibrium method returns phases with unequal activities.'),
     'C16': dict(
-        engine='Activity', category='model_checking',
+        engine='Activity', category='exploration',
         technique='TLA+ spec of the gather / normalise / scatter plumbing and instance cache around an uninterpreted group-contribution formula (Activity.tla) model-checked by TLC with two deviation guards; measured quantities of real activity-coefficient objects judged by TLC against the contract clauses',
         text='TLC explores all pairs of evaluations over every order of every chemical subset: the caller\'s composition is untouched and the value of a chemical does not depend on its position (the originally written gather loop and an unordered cache key are shown to fail). '
              'Random evaluations of the real UNIFAC / Dortmund / NIST / ideal objects (2-6 chemicals, with and without group data, interior, vertex, near-vertex, trace and edge compositions, 250-450 K) log side effects, ones for chemicals without groups, '
              'functional form vs object call, permutation difference, pure-component limit and the Gibbs-Duhem residual; TLC judges each.',
         note='Trusted: TLC; numerical clauses measured in floating point by the driver (central differences for Gibbs-Duhem).'),
     'C08': dict(
-        engine='BubbleDew', category='model_checking',
+        engine='BubbleDew', category='exploration',
         technique='TLA+ spec defining bubble / dew points of ideal mixtures with Psat = a T as exact rationals (BubbleDew.tla), model-checked by TLC for the C08 statements; values returned by real BubblePoint / DewPoint objects on such synthetic chemicals and measured residuals on real packages are validated by TLC',
         text='TLC checks bracketing (dew <= bubble pressure, bubble <= dew temperature), round trip, normalised compositions, single-component = saturation and scale independence on the rational definition for all weight vectors of the grid. '
              'Real BubblePoint / DewPoint objects on synthetic chemicals (ideal package) are called with 1-5 components incl. zero and trace ones, at any scale and order of the list, and the returned T, P, y / x compared with the rationals by TLC. '
              'For water-alcohol and hydrocarbon packages (ideal and Dortmund UNIFAC) the driver re-evaluates the defining equations with the library\'s own model objects and logs residuals for every clause; TLC judges them.',
         note='Trusted: TLC; Psat / Gamma / Phi / PCF objects of the library when re-evaluating the equations on real packages (C16 covers Gamma); tolerance 1e-6 relative there.'),
     'C20': dict(
-        engine='Separations', category='model_checking',
+        engine='Separations', category='exploration',
         technique='TLA+ spec defining the routing helpers (mix-and-split, phase split) and stating the others as balance-and-target contracts (Separations.tla), model-checked by TLC; histories of real helper calls are validated step by step by TLC',
         text='TLC verifies on all small tables that the definitions of mix-and-split and phase split close the balance (inlets before = outlets after, also with the outlet among the inlets). '
              'Histories of calls to the real helpers on five streams and a two-phase stream log all flows before / after; TLC judges per call: per-chemical balance, non-negativity unless infeasibility is reported, split / moisture / partition-coefficient / '
              'reconstruction / residual targets, forced top and bottom chemicals, frame (untouched streams).',
         note='Trusted: TLC; targets measured in floating point by the driver; equilibrium wrappers judged on balance only.'),
     'C04': dict(
-        engine='Flash', category='model_checking',
+        engine='Flash', category='exploration',
         technique='TLA+ spec of the Rachford-Rice characterisation of an ideal flash over exact rationals (Flash.tla on IdealVLE.tla), model-checked by TLC; proposals verified exactly by TLC are compared with real flashes of synthetic chemicals, and measured clauses of real-package flashes are judged by TLC',
         text='TLC checks on a grid that every feed and T / P ratio falls in exactly one region (all liquid / all vapour / two-phase with a Rachford-Rice root) independent of the feed scale. For synthetic ideal mixtures the driver proposes the solution (x, V); '
              'TLC verifies it in rationals and the real vle(T,P), vle(T,V), vle(P,V) must return it. For alcohol / hydrocarbon / aqueous packages (ideal and Dortmund, with optional non-condensable and non-volatile) the driver measures per flash: specified T / P returned, '
